@@ -275,6 +275,8 @@ def timeouts(cx, quick):
         fresh_obs = json.dumps([fresh[1]["t"], fresh[1]["rc"], fresh[1]["polls"]])
         if base["polls"] == 0:
             cx.ck.violation("C15:timeout:%s:clock-never-polled" % name, dict(rc=base["rc"])); continue
+        if base.get("clk") in (2, 3):       # CLOCK_PROCESS_CPUTIME_ID / CLOCK_THREAD_CPUTIME_ID: not wall time; the process clock also advances with other threads' work
+            cx.ck.violation("C15:timeout:deadline-measured-on-a-cpu-time-clock", dict(clock_id=base.get("clk")))
         ks = list(range(2, npolls + 1))            # poll 1 is the stopwatch start itself
         cmds = []
         for k in ks:
@@ -317,6 +319,32 @@ def timeouts(cx, quick):
             cx.ck.sub("timeouts", **{"blocks-of-%d" % size: polls})
     cx.n += total
     return total
+
+
+def match_data_limit(cx, quick):
+    """YR_CONFIG_MAX_MATCH_DATA at every setting L in a list, for every kind of string (text, regexp, hex, hex with a small jump, chained hex with two and three
+    pieces, chained regexp): the bytes handed to the callback are min(match length, L), and they are the bytes at the match offset"""
+    decls = [("text", '$s = "abcdefghij"', 10), ("regex", "$s = /ab[c-x]{6}ij/", 10), ("hex", "$s = { 61 62 63 64 65 66 67 68 69 6a }", 10), ("hex-jump", "$s = { 61 62 63 [4] 68 69 6a }", 10),
+             ("chain-2", "$s = { 41 41 41 41 [250-300] 42 42 42 42 }", 268), ("chain-3", "$s = { 41 41 41 41 [250-300] 42 42 42 42 [201-210] 43 43 43 43 }", 473),
+             ("chain-regex", "$s = /QQQQ.{250,300}?RRRR/", 268), ("chain-unbounded", "$s = { 51 52 53 54 [300-] 55 56 57 58 }", 408)]
+    data = b"..abcdefghij.." + b"AAAA" + b"." * 260 + b"BBBB" + b"." * 201 + b"CCCC" + b".." + b"QQQQ" + b"-" * 260 + b"RRRR" + b".." + b"QRST" + b"+" * 400 + b"UVWX" + b"."
+    for (name, decl, mlen) in decls:
+        for L in ((0, 1, 16, 267, 268, 269, 512, 4096) if not quick else (0, 16, 268, 4096)):
+            rep = cx.batch(["reset", "cfg matchdata %d" % L, "compiler 0", "add 0 - " + yv.hx("rule r { strings: %s condition: $s }" % decl), "getrules 0 0", "cdestroy 0", "blob 7 " + yv.hx(data),
+                            "scan target=r0 via=mem ml=2 data=@7", "reset", "cfg matchdata 512"])
+            cx.n += 1
+            if isinstance(rep, Exception):
+                cx.ck.violation("C15:match-data:%s:crash" % name, dict(limit=L, error=str(rep)[:300], stderr=getattr(rep, "err", "")[-1500:])); cx.batch(["cfg matchdata 512"]); continue
+            if rep[3]["errors"] or rep[7]["rc"] != 0:
+                cx.ck.violation("C15:match-data:harness:case-does-not-run", dict(string=name, limit=L, replies=str(rep[3:8])[:400])); continue
+            ms = [x for m in rep[7]["t"] if m[0] == "m" for sid in m[2] for x in sid[1]]
+            if not ms:
+                cx.ck.violation("C15:match-data:harness:no-match", dict(string=name, limit=L)); continue
+            for x in ms:
+                off, ln, hexd = x[0], x[1], x[4]
+                if ln != mlen or len(hexd) // 2 != min(ln, L) or bytes.fromhex(hexd) != data[off:off + min(ln, L)]:
+                    cx.ck.violation("C15:match-data:%s:data-not-clipped-to-the-limit" % name, dict(limit=L, match_length=ln, expected_match_length=mlen, data_bytes=len(hexd) // 2)); break
+    cx.ck.sub("match-data-limit", strings=len(decls))
 
 
 def iterator_stack(cx, quick):
@@ -442,6 +470,7 @@ def main():
         total += cx.n
         yv.drop_worker(variant)
     cx = Ctx(ck, "asan")
+    match_data_limit(cx, quick)
     if not quick: stack_limits(cx, True)
     regex_code_size(cx, quick)
     iterator_stack(cx, quick)
